@@ -26,8 +26,8 @@ PLAN = {
                 thorough=[("rt", "release", 1500000), ("rawrt", "release", 400000)],
                 assumptions=["frame boundaries come from refflac"]),
     "C17": dict(level="exploration", rule=RT_RULE,
-                quick=[("rt", "release", 30000), ("dmg", "release", 150), ("dmgcat", "release", 150)],
-                thorough=[("rt", "release", 1000000), ("dmg", "release", 4000), ("dmgcat", "release", 4000)],
+                quick=[("rt", "release", 30000), ("dmg", "release", 150), ("dmgcat", "release", 150), ("synth", "release", 20000)],
+                thorough=[("rt", "release", 1000000), ("dmg", "release", 4000), ("dmgcat", "release", 4000), ("synth", "release", 1500000), ("synth", "checked", 200000)],
                 assumptions=[]),
     "C13": dict(level="fault_enumeration",
                 rule=("each run draws one transaction (encode+finalize through a writer front-end on a raw / caller-buffered / "
@@ -110,8 +110,8 @@ PLAN = {
                       "entry points in rotation; one (damaged file, entry point) = one evaluation; monitors: panic/abort, hang "
                       "(EOF-poll and event budgets), peak allocation <= 64 MiB + 16 x input; both profiles"),
                 exhaustive_subspaces=["per corpus file <= 700 bytes: all single-bit flips, all truncation lengths, all 16-byte sectors"],
-                quick=[("dmg", "release", 130), ("dmg", "checked", 130), ("dmgcat", "release", 40), ("dmgcat", "checked", 40)],
-                thorough=[("dmg", "release", 2500), ("dmg", "checked", 2500), ("dmgcat", "release", 2000), ("dmgcat", "checked", 2000)],
+                quick=[("dmg", "release", 130), ("dmg", "checked", 130), ("dmgcat", "release", 40), ("dmgcat", "checked", 40), ("synth", "release", 6000), ("synth", "checked", 6000)],
+                thorough=[("dmg", "release", 2500), ("dmg", "checked", 2500), ("dmgcat", "release", 2000), ("dmgcat", "checked", 2000), ("synth", "release", 500000), ("synth", "checked", 500000)],
                 assumptions=["restricted claim: only byte strings that storage/transport faults derive from valid files, not all byte strings"]),
     "C05": dict(level="fault_enumeration",
                 rule=("same corpus; coordinates: every single-bit flip inside the audio frames and the stored MD5, every truncation "
